@@ -148,6 +148,10 @@ class SymReal:
     def __hash__(self):
         return hash(self.e)
 
+    def __bool__(self):
+        # truth value of a number (np.nonzero, `if x:`) forks on x != 0
+        return core.Ctx.cur.branch(self.e != 0)
+
     def __format__(self, spec):
         return f"<sym {self.e}>"
 
